@@ -125,6 +125,12 @@ class Fixed(unittest.TestCase):
         self.assertEqual(js.run_batch([{'op': 'like', 'rows': [['\U0001F600', '_'], ['\U0001F600', '__']]}])[0]['r'], [True, False])
 
 
+    def test_F20_js_aggregates_reject_blank_strings(self):
+        r = jsq('SELECT MIN(a1)', [['']])
+        self.assertIn('error', r)
+        self.assertEqual(r['error']['name'], 'RbqlRuntimeError')
+
+
 class Known(unittest.TestCase):
     @unittest.expectedFailure
     def test_F7_attribute_like_text_in_literal_with_header(self):
